@@ -49,13 +49,19 @@ func (f vmMdFactory) Create(suffix string) metadata.Metadata {
 
 var vmRegistered bool
 
+// Compiled at package initialisation (once), not per explored path.
+var (
+	vmMovableRe   = regexp.MustCompile(vmMovableSuffix + "$")
+	vmImmovableRe = regexp.MustCompile(vmImmovableSuffix + "$")
+)
+
 func vmRegister() {
 	if vmRegistered {
 		return
 	}
 	vmRegistered = true
-	metadata.Register(regexp.MustCompile(vmMovableSuffix+"$"), vmMdFactory{vmMovableSuffix, true})
-	metadata.Register(regexp.MustCompile(vmImmovableSuffix+"$"), vmMdFactory{vmImmovableSuffix, false})
+	metadata.Register(vmMovableRe, vmMdFactory{vmMovableSuffix, true})
+	metadata.Register(vmImmovableRe, vmMdFactory{vmImmovableSuffix, false})
 }
 
 func vmNewMd(kind int, b byte) *vmMd {
